@@ -5,7 +5,7 @@ CONSTANTS
   MaxXfer = 2
   MaxZ = 1
   MaxDrag = 1
-  FeedOut = {"plain", "cmdlike", "zmcancel", "zmhdr", "tlmark", "trig"}
+  FeedOut = {"plain", "cmdlike", "zmhdr", "tlmark", "trig"}
   FeedIn = {"plain", "ctrlc", "pathex"}
   OptSets <- Osc52On
   ExitCodes = {0, 3}
